@@ -22,13 +22,14 @@ import (
 // Residue lists what a finished / removed rollout must not leave behind and what must be back to the
 // user's configuration (C05), evaluated on the store. baseline holds the user's original objects.
 type Baseline struct {
-	StableSelector map[string]string
-	Ingress        *netv1.Ingress
-	Route          *gatewayv1beta1.HTTPRoute
-	WorkloadLabels map[string]string
-	WorkloadAnnos  map[string]string
-	VirtualService map[string]interface{} // spec of the user's VirtualService (custom provider)
-	WorkloadSpec   string                 // the user's workload spec without template and replicas (see workloadSpecProjection)
+	StableSelector  map[string]string
+	Ingress         *netv1.Ingress
+	Route           *gatewayv1beta1.HTTPRoute
+	WorkloadLabels  map[string]string
+	WorkloadAnnos   map[string]string
+	VirtualService  map[string]interface{} // spec of the user's VirtualService (custom provider)
+	DestinationRule map[string]interface{} // spec of the user's DestinationRule (custom provider, second ref)
+	WorkloadSpec    string                 // the user's workload spec without template and replicas (see workloadSpecProjection)
 }
 
 func CaptureBaseline(w *World, sc *Scenario) *Baseline {
@@ -50,6 +51,11 @@ func CaptureBaseline(w *World, sc *Scenario) *Baseline {
 	}
 	if vs := GetVirtualService(w, sc.ns()); vs != nil {
 		b.VirtualService, _, _ = unstructured.NestedMap(vs.Object, "spec")
+	}
+	for _, o := range w.Store.PeekAll("destinationrules") {
+		if u, ok := o.(*unstructured.Unstructured); ok && u.GetName() == AppName {
+			b.DestinationRule, _, _ = unstructured.NestedMap(u.Object, "spec")
+		}
 	}
 	b.WorkloadSpec = workloadSpecProjection(getWorkload(w, sc))
 	return b
@@ -207,16 +213,34 @@ func virtualServiceResidue(w *World, sc *Scenario, base *Baseline) []string {
 		return nil
 	}
 	var out []string
-	vs := GetVirtualService(w, sc.ns())
-	if vs == nil {
-		return []string{"the user's VirtualService is gone"}
+	if vs := GetVirtualService(w, sc.ns()); vs == nil {
+		out = append(out, "the user's VirtualService is gone")
+	} else {
+		spec, _, _ := unstructured.NestedMap(vs.Object, "spec")
+		if lib.J(spec) != lib.J(base.VirtualService) {
+			out = append(out, "VirtualService spec differs from the user's: "+lib.J(spec))
+		}
+		if _, has := vs.GetAnnotations()["rollouts.kruise.io/original-spec-configuration"]; has {
+			out = append(out, "VirtualService still carries the saved original configuration annotation")
+		}
 	}
-	spec, _, _ := unstructured.NestedMap(vs.Object, "spec")
-	if lib.J(spec) != lib.J(base.VirtualService) {
-		out = append(out, "VirtualService spec differs from the user's: "+lib.J(spec))
-	}
-	if _, has := vs.GetAnnotations()["rollouts.kruise.io/original-spec-configuration"]; has {
-		out = append(out, "VirtualService still carries the saved original configuration annotation")
+	if base.DestinationRule != nil {
+		found := false
+		for _, o := range w.Store.PeekAll("destinationrules") {
+			if u, ok := o.(*unstructured.Unstructured); ok && u.GetName() == AppName {
+				found = true
+				spec, _, _ := unstructured.NestedMap(u.Object, "spec")
+				if lib.J(spec) != lib.J(base.DestinationRule) {
+					out = append(out, "VirtualService's companion DestinationRule spec differs from the user's: "+lib.J(spec))
+				}
+				if _, has := u.GetAnnotations()["rollouts.kruise.io/original-spec-configuration"]; has {
+					out = append(out, "VirtualService's companion DestinationRule still carries the saved original configuration annotation")
+				}
+			}
+		}
+		if !found {
+			out = append(out, "VirtualService's companion DestinationRule is gone")
+		}
 	}
 	return out
 }
@@ -280,7 +304,18 @@ func (m *ExitMonitor) OnState(x *Ctx, quiescent bool) {
 	}
 	x.Count("C05 terminal states judged (" + reason + ")")
 	x.ex.Terminals[reason]++
-	if res := Residue(x.W, sc, m.Base); len(res) > 0 {
+	res := Residue(x.W, sc, m.Base)
+	if x.Mon["req.deleteVS"] != "" {
+		// the user removed the VirtualService themselves: its absence is not a leftover of the rollout
+		kept := res[:0]
+		for _, r := range res {
+			if r != "the user's VirtualService is gone" {
+				kept = append(kept, r)
+			}
+		}
+		res = kept
+	}
+	if len(res) > 0 {
 		// The signature names the residue class, except in histories whose root cause is established: there the same
 		// cause shows as many different leftovers, and the history class identifies the finding.
 		sig := "C05/restore/" + strings.Split(reason, "+")[0]
